@@ -507,7 +507,10 @@ func generic(tr *vh.Trace, rnd *rand.Rand, kind string, K int, style nastykeys.S
 // big scenario (F13 hunting ground): production-like split factor, many keys, bulk build,
 // then deletes (siblings are never merged) and wide RangeFrac queries
 func big(tr *vh.Trace, rnd *rand.Rand) {
-	K := 700 + rnd.Intn(1400)
+	K := 300 + rnd.Intn(500)
+	if vh.Thorough() {
+		K = 700 + rnd.Intn(1400)
+	}
 	split := []int{100, 100, 60}[rnd.Intn(3)]
 	style := []nastykeys.Style{nastykeys.Numeric, nastykeys.Numeric, nastykeys.Alphabet}[rnd.Intn(3)]
 	keys := nastykeys.Universe(rnd, K, style)
@@ -517,7 +520,7 @@ func big(tr *vh.Trace, rnd *rand.Rand) {
 		return
 	}
 	s.state(1)
-	s.fracs(1, 30)
+	s.fracs(1, 20)
 	nb := 1 + rnd.Intn(3)
 	for i := 0; i < nb && !s.dead; i++ {
 		// delete a random 20-60 % of what is there, unevenly (some regions nearly emptied)
@@ -545,7 +548,7 @@ func big(tr *vh.Trace, rnd *rand.Rand) {
 		if s.dead {
 			return
 		}
-		s.fracs(v, 60)
+		s.fracs(v, 40)
 		if i == nb-1 {
 			s.state(v)
 			s.walk(v, 30)
